@@ -51,7 +51,7 @@ impl Parser {
 
         let else_branch = if self.match_token(&TokenKind::Else) {
             if self.match_token(&TokenKind::If) {
-                Some(Box::new(self.if_statement()?))
+                Some(Box::new(self.nested(Self::if_statement)?))
             } else {
                 self.consume(&TokenKind::LBrace, "{")?;
                 Some(Box::new(self.block_statement()?))
